@@ -227,6 +227,25 @@ def run_history(spec, acc):
             if res != ['script arrayLength', 'helper 1', 'not a function', 3] or any(g[n] is not v for n, v in kept.items()):
                 acc.violation('library-overwrote-supplied-name', f'second run on the same globals: {res!r}; bindings kept: { {n: g[n] is v for n, v in kept.items()} }', {'history': 'same-globals-next-run'})
                 return
+        # ONE options object, a different globals object for every run (fresh dict, dict with a host override, none at all):
+        # each run gets the library added to ITS globals
+        o = {'maxStatements': 1000}
+        for k, gk in enumerate(({}, {'mathAbs': lambda a, opts: 'host abs'}, None, {}, {'zz': 1})):
+            want = [3, 'host abs' if isinstance(gk, dict) and 'mathAbs' in gk else 2, 2]
+            if gk is None:
+                o.pop('globals', None)
+            else:
+                o['globals'] = gk
+            try:
+                res = bare_script.execute_script(bare_script.parse_script("top = arrayLength(arrayNew(1, 2, 3))\nreturn arrayNew(top, mathAbs(0 - 2), stringLength('ab'))"), o)
+            except Exception as exc:  # pylint: disable=broad-except
+                res = f'{type(exc).__name__}: {exc}'
+            acc.case(('options-reused-fresh-globals', h, k), True)
+            acc.count('options_reused_with_fresh_globals')
+            wrote = o.get('globals', {}).get('top') if isinstance(o.get('globals'), dict) else None
+            if res != want or wrote != 3 or (gk is not None and o.get('globals') is not gk):
+                acc.violation('library-not-added-to-new-globals', f'run {k + 1} on a reused options object with globals {gk!r:.80}: {res!r}, top-level assignment landed: {wrote == 3}', {'history': 'options-reused-fresh-globals', 'run': k})
+                return
         # one options object reused after a run that FAILED inside a data function called with a variables object (runtime error in
         # the row expression, budget exceeded in a callback): the caller's globals object is still the one in the options, the
         # variables are gone, and the next run writes its assignments there
